@@ -52,6 +52,7 @@ m("C06","gen-edited-without-grammar","encoding/wkt/wkt.gen.go","			ok := wktlex.
 m("C06","new-assertion-in-discharged-function","encoding/wkt/lex.go","	if !l.currentlyInBaseTypeCollection() {\n		// A base type is only permitted in a GEOMETRYCOLLECTIONM if it is EMPTY.","	if !l.currentlyInBaseTypeCollection() {\n		if l.curLayout() == geom.XYZM {\n			panic(\"base type inside a ZM collection\")\n		}\n		// A base type is only permitted in a GEOMETRYCOLLECTIONM if it is EMPTY.","panic-inventory/(*encoding/wkt.wktLex).validateBaseGeometryTypeAllowed")
 m("C06","reslice-outside-pop","encoding/wkt/lex_stack.go","func (s *layoutStack) setTopNextPointMustBeEmpty(nextPointMustBeEmpty bool) {","func (s *layoutStack) setTopNextPointMustBeEmpty(nextPointMustBeEmpty bool) {\n	if len(s.data) > 3 {\n		s.data = s.data[:1]\n	}","assertion-premises/P4")
 # ---- C07
+m("C07","second-ordinate-read-unguarded","encoding/geojson/geojson.go","	if len(coords1) == 0 {\n		return DefaultLayout, nil\n	}\n	return guessLayout0(coords1[0])","	if len(coords1) == 0 {\n		return DefaultLayout, nil\n	}\n	if coords1[0][1] != coords1[0][1] {\n		return geom.NoLayout, ErrDimensionalityTooLow(1)\n	}\n	return guessLayout0(coords1[0])","first-element-guarded/encoding/geojson.guessLayout1/element[1]")
 m("C07","new-panic-in-bounds-set","bounds.go","	stride := len(args) / 2\n	b.extendStride(stride)","	stride := len(args) / 2\n	if stride > 3 {\n		panic(\"geom: at most three dimensions\")\n	}\n	b.extendStride(stride)","panic-free-decoders/(*geom.Bounds).Set")
 m("C07","mls-decoded-as-polygon","encoding/geojson/geojson.go","		return geom.NewMultiLineString(layout).SetCoords(coords)","		return geom.NewPolygon(layout).SetCoords(coords)","type-name-table/encoding/geojson.Decode/MultiLineString")
 m("C07","properties-not-restored","encoding/geojson/geojson.go","	f.Properties = gf.Properties\n	return nil","	return nil","feature-field-coverage/encoding/geojson.Feature.Properties/unmarshal")
